@@ -154,6 +154,29 @@ Definition good_rows (hk : list key) (expect : sheet) (probes : list key) (o : r
           else true)
   end.
 
+(* the same for a schema that declares a position for each name (any order, any subset):
+   every row delivered; value list = cells at the declared positions in declaration order;
+   every probed name that is declared gives the cell at its declared position *)
+Definition good_rows_at (decl : list (key * nat)) (expect : sheet) (probes : list key) (o : read) : bool :=
+  match o with
+  | Err _ => false
+  | Ok robs =>
+      list_eqb (list_eqb value_eqb) (map o_inst robs) (map (map Some) expect)
+      && (if distinct key_eqb (map fst decl) then
+            forallb (fun p : rowobs * row =>
+                       let (ob, r) := p in
+                       res_eqb (list_eqb value_eqb) (o_vals ob) (Ok (cells_at decl r))
+                       && (length (o_names ob) =? length probes)%nat
+                       && forallb (fun q : key * res value =>
+                                     match declared_cell key_eqb decl (fst q) r with
+                                     | Some v => res_eqb value_eqb (snd q) (Ok v)
+                                     | None => true
+                                     end)
+                                  (combine probes (o_names ob)))
+                    (combine robs expect)
+          else true)
+  end.
+
 Definition good_header (phys : sheet) (probes : list key) (o : read) : bool :=
   match phys with
   | [] => read_eqb o (Ok [])
@@ -297,19 +320,23 @@ Definition judge_external (c : sx) : sx :=
 
 (* ---------------------------------------------------------------- stream 3: binding calls on one Sheet *)
 (* op = (0 l)            set_schema_loader: l = 0 SchemaLoader(), 1 HeadingRowSchemaLoader()
-      | (1 kind names)   set_schema: kind 0 = hand-written without positions, 1 = hand-written with
-                         positions 0.., 2 = loaded by ExternalSchemaLoader from rows (name, d, string) *)
-Inductive op := OpLoader (l : loader) | OpSchema (kind : Z) (names : list key).
+      | (1 kind names [positions])   set_schema: kind 0 = hand-written without positions, 1 = hand-written
+                         with positions 0.., 2 = loaded by ExternalSchemaLoader from rows (name, d, string),
+                         3 = hand-written, every name with the explicit position given (any order, any subset) *)
+Inductive op := OpLoader (l : loader) | OpSchema (kind : Z) (decl : list (key * nat)).
 
+(* kinds 0..2 number the names in order; kind 3 carries its own positions *)
 Definition dec_op (x : sx) : op :=
   if as_Z (nth_sx 0 x) =? 0
   then OpLoader (if as_Z (nth_sx 1 x) =? 0 then NoLoader else HeadingRow)
-  else OpSchema (as_Z (nth_sx 1 x)) (dec_keys (nth_sx 2 x)).
+  else let kind := as_Z (nth_sx 1 x) in
+       let names := dec_keys (nth_sx 2 x) in
+       OpSchema kind (if kind =? 3 then combine names (as_nats (nth_sx 3 x)) else with_positions names).
 
-Definition schema_of_op (kind : Z) (names : list key) : option schema :=
-  if kind =? 0 then Some (hand_schema names)
-  else if kind =? 1 then Some (dict_of (map (fun p => mk_entry (fst p) (Some (snd p))) (with_positions names)))
-  else match ext_load_meta (map (fun n => [Txt n; Txt [100]%N; Txt [115; 116; 114; 105; 110; 103]%N]) names) with
+Definition schema_of_op (kind : Z) (decl : list (key * nat)) : option schema :=
+  if kind =? 0 then Some (hand_schema (map fst decl))
+  else if (kind =? 1) || (kind =? 3) then Some (hand_schema_at decl)
+  else match ext_load_meta (map (fun n => [Txt n; Txt [100]%N; Txt [115; 116; 114; 105; 110; 103]%N]) (map fst decl)) with
        | Ok s => Some s
        | Err _ => None
        end.
@@ -317,7 +344,7 @@ Definition schema_of_op (kind : Z) (names : list key) : option schema :=
 Definition binding_of_op (o : op) : option binding :=
   match o with
   | OpLoader l => Some (SetLoader l)
-  | OpSchema kind names => option_map SetSchema (schema_of_op kind names)
+  | OpSchema kind decl => option_map SetSchema (schema_of_op kind decl)
   end.
 
 Fixpoint all_some {T} (l : list (option T)) : option (list T) :=
@@ -327,19 +354,20 @@ Fixpoint all_some {T} (l : list (option T)) : option (list T) :=
   | None :: _ => None
   end.
 
-(* the names bound by the latest set_schema call *)
-Definition latest_names (ops : list op) : option (list key) :=
-  fold_left (fun acc o => match o with OpSchema _ names => Some names | OpLoader _ => acc end) ops None.
+(* the declarations bound by the latest set_schema call *)
+Definition latest_decl (ops : list op) : option (list (key * nat)) :=
+  fold_left (fun acc o => match o with OpSchema _ decl => Some decl | OpLoader _ => acc end) ops None.
 
-(* the last call decides: a schema call -> every physical row, read by those names; a heading-row
-   loader call -> the heading-row property; a do-nothing loader call -> the latest schema, every row *)
+(* the last call decides: a schema call -> every physical row, each name reading the cell at its
+   declared position; a heading-row loader call -> the heading-row property; a do-nothing loader
+   call -> the latest schema, every row *)
 Definition good_binding (ops : list op) (phys : sheet) (probes : list key) (o : read) : bool :=
   match last ops (OpLoader NoLoader) with
-  | OpSchema _ names => good_rows names phys probes o
+  | OpSchema _ decl => good_rows_at decl phys probes o
   | OpLoader HeadingRow => good_header phys probes o
   | OpLoader NoLoader =>
-      match latest_names ops with
-      | Some names => good_rows names phys probes o
+      match latest_decl ops with
+      | Some decl => good_rows_at decl phys probes o
       | None => true
       end
   end.
@@ -356,7 +384,7 @@ Definition judge_binding (c : sx) : sx :=
       let st := bind_all bs in
       let m := model_read (read_after bs phys) probes in
       let dom_names :=
-        forallb (fun x => match x with OpSchema _ names => distinct key_eqb names | OpLoader _ => true end) ops in
+        forallb (fun x => match x with OpSchema _ decl => distinct key_eqb (map fst decl) | OpLoader _ => true end) ops in
       let bound := match st with (NoLoader, None) => false | _ => true end in
       let dom := dom_names && bound
                  && match fst st with HeadingRow => in_domain_header phys | NoLoader => true end in
